@@ -58,12 +58,14 @@ def loo_softmax(D):
 
 
 def nca_objective(L, X, y):
+  X = np.asarray(X, dtype=float)          # the documented objective is about the VALUES of the points, whatever their storage dtype
   P = loo_softmax(sqdist(X.dot(L.T)))
   same = (y[:, None] == y[None, :]) & ~np.eye(len(y), dtype=bool)
   return float(P[same].sum())
 
 
 def mlkr_objective(L, X, y):
+  X = np.asarray(X, dtype=float)
   P = loo_softmax(sqdist(X.dot(L.T)))
   yhat = P.dot(y)
   return float(((yhat - y) ** 2).sum())
@@ -72,6 +74,7 @@ def mlkr_objective(L, X, y):
 def lmnn_targets(X, y, k):
   """-> (list of index arrays T(i), ambiguous?)  ambiguous: the k-th and (k+1)-th same-class neighbour are (nearly) tied,
   so 'the k nearest' is not a well-defined set: such data are skipped"""
+  X = np.asarray(X, dtype=float)
   D = sqdist(X)
   T = []
   ambiguous = False
@@ -86,6 +89,7 @@ def lmnn_targets(X, y, k):
 
 def lmnn_objective(L, X, y, T, reg):
   """-> (objective, boolean vector: which hinges are active, smallest |hinge argument|)"""
+  X = np.asarray(X, dtype=float)
   D = sqdist(X.dot(L.T))
   pull = 0.0
   push = 0.0
@@ -131,7 +135,7 @@ def datasets(tier, seed):
   n_neighbors <= 3 has k same-class neighbours for every point).  Variants: isotropic, anisotropic features, shifted
   class means, non-contiguous / negative labels, one duplicated point (NCA/MLKR only)"""
   rng = np.random.RandomState(1000003 * (seed + 1) % (2 ** 31 - 1))
-  n_data = 6 if tier == 'quick' else 20
+  n_data = 7 if tier == 'quick' else 21
   for t in range(n_data):
     d = 2 + t % 4
     n = int(rng.randint(4 * d, 31)) if 4 * d < 30 else 30
@@ -142,7 +146,14 @@ def datasets(tier, seed):
     ycls = np.concatenate([np.repeat(np.arange(n_classes), 4), rng.randint(0, n_classes, n - 4 * n_classes)])
     rng.shuffle(ycls)
     X = rng.randn(n, d)
-    variant = ('isotropic', 'anisotropic', 'separated', 'relabelled', 'duplicate')[t % 5]
+    variant = ('isotropic', 'anisotropic', 'separated', 'relabelled', 'duplicate', 'uint8', 'outliers')[t % 7]
+    if variant == 'uint8':
+      # 8-bit data (grey levels): differences of such numbers leave the dtype's range unless the learner computes in floating point
+      X = np.clip(np.round(120 + 60 * X), 0, 255).astype(np.uint8)
+    if variant == 'outliers':
+      # a few isolated points far from everything else (squared embedded distances of order 1e3 - 1e4): the leave-one-out softmax of the
+      # documented objectives is defined for them too
+      X[:2] = X[:2] * 3 + np.array([60.0, -45.0, 30.0, 80.0, -70.0])[:d]
     if variant == 'anisotropic':
       X = X * np.array([3.0, 0.3, 1.0, 2.0, 0.5])[:d]
     if variant == 'separated':
